@@ -45,6 +45,8 @@ type VerifShape struct {
 	Box2   Box2   // the stored bounding box (Dim == 2)
 	Box3   Box3   // the stored bounding box (Dim == 3)
 	Why    string // Opaque: why the shape was not opened
+	S2     SDF2   // the reified value itself (Dim == 2)
+	S3     SDF3   // the reified value itself (Dim == 3)
 }
 
 type verifDumper struct {
@@ -242,7 +244,7 @@ func (d *verifDumper) dump2(s SDF2) *VerifShape {
 	if old {
 		return n
 	}
-	n.Box2 = s.BoundingBox()
+	n.Box2, n.S2 = s.BoundingBox(), s
 	switch x := s.(type) {
 	case *CircleSDF2:
 		n.Kind, n.F = "Circle", []float64{x.radius}
@@ -315,7 +317,7 @@ func (d *verifDumper) dump3(s SDF3) *VerifShape {
 	if old {
 		return n
 	}
-	n.Box3 = s.BoundingBox()
+	n.Box3, n.S3 = s.BoundingBox(), s
 	switch x := s.(type) {
 	case *SphereSDF3:
 		n.Kind, n.F = "Sphere", []float64{x.radius}
